@@ -23,7 +23,7 @@
 EXTENDS Naturals, Sequences, FiniteSets, TLC
 
 CONSTANTS
-    Table,      \* "cert" | "sshsig" | "verify" | "ident" : which table this run enumerates
+    Table,      \* "cert" | "sshsig" | "verify" | "ident" | "cross" : which table this run enumerates
     Variant,    \* "code" = faithful; anything else = a seeded-wrong machine
     TwoLines,   \* sshsig: also enumerate two-line allowed-signers files
     Emit        \* TRUE: print one row per finished case
@@ -234,6 +234,68 @@ IdentCheck(s, k) ==
                     \/ Norm(k.wanted) \in {Norm(n) : n \in Range(k.list)}
 
 -----------------------------------------------------------------------------
+(* Cross-algorithm table: every key x every registered signature algorithm  *)
+(* NAME (of all key types) as the outer name of an otherwise genuine        *)
+(* signature, after keys of the other types have been constructed in the    *)
+(* same process.  Rule: accepted iff the name is one of the algorithms of   *)
+(* THAT key and denotes the algorithm the signature was made with (for RSA: *)
+(* same hash; alias names are the same algorithm).  The set of names a key  *)
+(* object accepts is a function of the key alone (NameSetLocal).            *)
+
+XKeys == {"rsa", "ecdsa256", "ecdsa384", "ecdsa521", "ed25519", "ed448", "dss"}
+RsaHash == [n \in {"rsa-sha2-256", "rsa-sha2-512", "ssh-rsa", "ssh-rsa-sha224@ssh.com",
+                   "ssh-rsa-sha256@ssh.com", "ssh-rsa-sha384@ssh.com",
+                   "ssh-rsa-sha512@ssh.com", "rsa2048-sha256"} |->
+              CASE n \in {"rsa-sha2-256", "ssh-rsa-sha256@ssh.com", "rsa2048-sha256"} -> "sha256"
+                [] n \in {"rsa-sha2-512", "ssh-rsa-sha512@ssh.com"} -> "sha512"
+                [] n = "ssh-rsa" -> "sha1"
+                [] n = "ssh-rsa-sha224@ssh.com" -> "sha224"
+                [] OTHER -> "sha384"]
+XNamesOf(k) ==
+    CASE k = "rsa"      -> DOMAIN RsaHash
+      [] k = "ecdsa256" -> {"ecdsa-sha2-nistp256"}
+      [] k = "ecdsa384" -> {"ecdsa-sha2-nistp384"}
+      [] k = "ecdsa521" -> {"ecdsa-sha2-nistp521"}
+      [] k = "ed25519"  -> {"ssh-ed25519"}
+      [] k = "ed448"    -> {"ssh-ed448"}
+      [] k = "dss"      -> {"ssh-dss"}
+ForeignNames == {"ecdsa-sha2-1.3.132.0.10", "sk-ssh-ed25519@openssh.com",
+                 "sk-ecdsa-sha2-nistp256@openssh.com",
+                 "webauthn-sk-ecdsa-sha2-nistp256@openssh.com", "x509v3-ssh-rsa",
+                 "x509v3-ecdsa-sha2-nistp256", "x509v3-ssh-ed25519", "bogus", ""}
+XAllNames == UNION {XNamesOf(k) : k \in XKeys} \cup ForeignNames
+\* the algorithms signatures are made with
+XSignAlgs(k) == IF k = "rsa" THEN {"rsa-sha2-256", "rsa-sha2-512", "ssh-rsa"} ELSE XNamesOf(k)
+IsEc(k) == k \in {"ecdsa256", "ecdsa384", "ecdsa521"}
+
+CrossCases ==
+    {k \in [key : XKeys, sigalg : XAllNames, name : XAllNames,
+            path : {"verify", "cert", "sshsig"},
+            built : {{}, XKeys},            \* key types constructed before this key is used
+            order : {"fwd", "rev"}] :
+        /\ k.sigalg \in XSignAlgs(k.key)
+        /\ (k.built = {} => k.order = "fwd")}
+
+SameAlgorithm(k) ==
+    IF k.key = "rsa" THEN k.name \in DOMAIN RsaHash /\ RsaHash[k.name] = RsaHash[k.sigalg]
+    ELSE k.name = k.sigalg
+CrossRule(k) == k.name \in XNamesOf(k.key) /\ SameAlgorithm(k)
+
+\* names the key OBJECT accepts
+XAccepted(k) ==
+    IF Variant = "SharedNameSet" /\ IsEc(k.key)
+    THEN XNamesOf(k.key) \cup UNION {XNamesOf(b) : b \in {x \in k.built : IsEc(x)}}
+    ELSE XNamesOf(k.key)
+
+CrossStages == <<"alg", "crypto">>
+CrossCheck(s, k) ==
+    CASE s = "alg"    -> k.name \in XAccepted(k)
+      [] s = "crypto" -> IF k.key = "rsa" THEN RsaHash[k.name] = RsaHash[k.sigalg]
+                         ELSE TRUE      \* the other verifiers do not look at the name again
+
+NameSetLocal == Table = "cross" => XAccepted(c) = XNamesOf(c.key)
+
+-----------------------------------------------------------------------------
 (* Plain signatures                                                        *)
 
 Algs == {"rsa-sha2-256", "rsa-sha2-512", "ssh-rsa", "ecdsa256", "ecdsa384", "ecdsa521",
@@ -272,16 +334,19 @@ Cases == CASE Table = "cert"   -> CertCases
            [] Table = "sshsig" -> SigCases
            [] Table = "verify" -> VerCases
            [] Table = "ident"  -> IdentCases
+           [] Table = "cross"  -> CrossCases
 
 Stages == CASE Table = "cert"   -> CertStages
             [] Table = "sshsig" -> SigStages
             [] Table = "verify" -> VerStages
             [] Table = "ident"  -> IdentStages
+            [] Table = "cross"  -> CrossStages
 
 Rule(k) == CASE Table = "cert"   -> CertRule(k)
              [] Table = "sshsig" -> SshsigRule(k)
              [] Table = "verify" -> VerifyRule(k)
              [] Table = "ident"  -> IdentRule(k)
+             [] Table = "cross"  -> CrossRule(k)
 
 Init == c \in Cases /\ pc = 1 /\ res = "pending" /\ stage = "none"
 
@@ -303,6 +368,12 @@ SigStep ==
       [] s = "caentries"  -> IF CaEntryHit(c) THEN Goto(4) ELSE Reject(s)
       [] s = "certvalid"  -> IF c.signer = "cert_ok" THEN Accept ELSE Reject(s)
 
+CrossStep ==
+    LET s == CrossStages[pc] IN
+    IF CrossCheck(s, c)
+    THEN IF pc = Len(CrossStages) THEN Accept ELSE Goto(pc + 1)
+    ELSE Reject(s)
+
 IdentStep ==
     LET s == IdentStages[pc] IN
     IF IdentCheck(s, c)
@@ -320,6 +391,7 @@ Next ==
          [] Table = "sshsig" -> SigStep
          [] Table = "verify" -> VerStep
          [] Table = "ident"  -> IdentStep
+         [] Table = "cross"  -> CrossStep
 
 Spec == Init /\ [][Next]_vars
 
